@@ -38,10 +38,23 @@ def r1_validate_before_upload(ctx):
     ups = [enclosing_stmt(c) for c in self_calls(fn.node, {'_upload_data', '_upload_data_threadsafe'})]
     ctx.floor('C17.R1', 'config upload in init', len(ups))
     ctx.check(len(ups) == 1, 'C17.R1', f'{func_label(fn)}|single-backend-mutation', loc(fn, ups[0]), 'init performs exactly one backend mutation (the config upload)', f'init performs {len(ups)} uploads')
-    enc_ifs = [n for n in fn.node.body if isinstance(n, ast.If) and isinstance(n.test, ast.Attribute) and n.test.attr == 'encrypted']
-    not_enc = [x for n in enc_ifs for x in cfg.nodes_of(n, 'false')]
-    set_ifs = [n for n in fn.node.body if isinstance(n, ast.If) and isinstance(n.test, ast.Name) and n.test.id == 'settings']
-    no_settings = [x for n in set_ifs for x in cfg.nodes_of(n, 'false')]
+    # "not encrypted" edges: false edge of `if <props>.encrypted`, true edge of `if not <props>.encrypted` (the test must be exactly that flag)
+    not_enc = []
+    for n in walk_local(fn.node):
+        if isinstance(n, ast.If):
+            t = n.test
+            if isinstance(t, ast.Attribute) and t.attr == 'encrypted':
+                not_enc += cfg.nodes_of(n, 'false')
+            elif isinstance(t, ast.UnaryOp) and isinstance(t.op, ast.Not) and isinstance(t.operand, ast.Attribute) and t.operand.attr == 'encrypted':
+                not_enc += cfg.nodes_of(n, 'true')
+    no_settings = []
+    for n in walk_local(fn.node):
+        if isinstance(n, ast.If):
+            t = n.test
+            if isinstance(t, ast.Name) and t.id == 'settings':
+                no_settings += cfg.nodes_of(n, 'false')
+            elif isinstance(t, ast.UnaryOp) and isinstance(t.op, ast.Not) and isinstance(t.operand, ast.Name) and t.operand.id == 'settings':
+                no_settings += cfg.nodes_of(n, 'true')
     required = [
         ('_validate_init_settings', no_settings, 'settings validation'),
         ('_make_config', [], 'config construction'),
